@@ -15,10 +15,12 @@ Definition code_nn (k : nat) : list tinstr := [XMarshal; XWrite k; XEnd].
 Definition code_rd : list tinstr := [XRead; XLock; XEnter; XExit MLoad; XEnter; XExit MDeleteHeld; XUnlock].
 
 Lemma tx_safeb_spec sk : tx_safeb sk = true ->
+  k_wm sk = [WChunk; WChunk; WFlush; WHook] /\
   k_wp sk = [TMarshal; TRegister; TWrite; TUnregFail] /\ k_reg sk = [ALock; AStore; AUnlock] /\
   k_unreg sk = [ALock; ADelete; AUnlock] /\ k_look sk = [ALock; ALoad; ADelete; AUnlock].
 Proof.
   unfold tx_safeb. intros H.
+  destruct (k_wm sk) as [|[] [|[] [|[] [|[] [|]]]]]; try discriminate.
   destruct (k_wp sk) as [|[] [|[] [|[] [|[] [|]]]]]; try discriminate.
   destruct (k_reg sk) as [|[] [|[] [|[] [|]]]]; try discriminate.
   destruct (k_unreg sk) as [|[] [|[] [|[] [|]]]]; try discriminate.
@@ -29,14 +31,14 @@ Qed.
 Lemma req_code_safe sk k q : tx_safeb sk = true ->
   req_code sk k q = if needs q then (if q_fail q then code_f k else code_nf k) else code_nn k.
 Proof.
-  intros H. apply tx_safeb_spec in H. destruct H as (H1 & H2 & H3 & _).
-  unfold req_code. rewrite H1. cbn [flat_map tev_code]. rewrite H2, H3.
+  intros H. apply tx_safeb_spec in H. destruct H as (H0 & H1 & H2 & H3 & _).
+  unfold req_code. rewrite H1. cbn [flat_map tev_code]. rewrite H0, H2, H3. cbn [wm_code].
   destruct (needs q), (q_fail q); reflexivity.
 Qed.
 
 Lemma reader_code_safe sk : tx_safeb sk = true -> reader_code sk = code_rd.
 Proof.
-  intros H. apply tx_safeb_spec in H. destruct H as (_ & _ & _ & H4). unfold reader_code. now rewrite H4.
+  intros H. apply tx_safeb_spec in H. destruct H as (_ & _ & _ & _ & H4). unfold reader_code. now rewrite H4.
 Qed.
 
 (* ------------------------------------------------------------------ table lemmas *)
